@@ -143,6 +143,8 @@ func astDump(v any) string {
 	return b.String()
 }
 
+var graphCommentsRe = regexp.MustCompile(`"comments":\[("(\\.|[^"\\])*",?)*\],`)
+
 var commentRe = regexp.MustCompile(`(?m)^[ \t]*#[^\n]*$`)
 
 func commentBag(src string) map[string]int {
@@ -288,6 +290,10 @@ func TestC09Format(t *testing.T) {
 			if e0 == nil && p0 == nil && p1 == nil {
 				j0, _ := jsonMarshal(g0)
 				j1, _ := jsonMarshal(g1)
+				// (which node a comment is attached to is not part of the
+				// program: the formatter may move one written between a
+				// keyword and its operand in front of the statement)
+				j0, j1 = graphCommentsRe.ReplaceAllString(j0, ""), graphCommentsRe.ReplaceAllString(j1, "")
 				if j0 != j1 {
 					fail(t, "C09", "formatted-call-graph-differs", "the resolved call graph differs:\n%s\n--- input\n%s\n--- output\n%s", firstDiff(j0, j1), src, out)
 				}
